@@ -95,7 +95,7 @@ theorem stop_terminates (c : Cfg) (hc : c.legacy = false) (es : List Ev) (s s' :
 /-- Non-vacuity: two workers' worth of reordering, a block that fails to decode, Stop at the end. -/
 example :
     (run ⟨true, false⟩ init
-      [.start, .sub ⟨0, true, true⟩, .sub ⟨1, false, false⟩, .sub ⟨2, true, true⟩,
+      [.start, .enter, .acq ⟨0, true, true⟩, .sub ⟨0, true, true⟩, .enter, .acq ⟨1, false, false⟩, .sub ⟨1, false, false⟩, .enter, .acq ⟨2, true, true⟩, .sub ⟨2, true, true⟩,
        .dt ⟨2, true, true⟩, .dt ⟨0, true, true⟩, .dp ⟨2, true, true⟩, .vt ⟨2, true, true⟩,
        .vp ⟨2, true, true⟩, .at_ ⟨2, true, true⟩, .ab ⟨2, true, true⟩, .dt ⟨1, false, false⟩,
        .dp ⟨1, false, false⟩, .dp ⟨0, true, true⟩, .vt ⟨0, true, true⟩, .vt ⟨1, false, false⟩,
